@@ -101,6 +101,10 @@ func (w *watches) removePath(path string) ([]uint32, error) {
 	wds = append(wds, wd)
 	for p, rwd := range w.path {
 		if strings.HasPrefix(p, path) {
+			if len(p) > len(path) && p[len(path)] != filepath.Separator {
+				// Not below path, just a name that starts the same (dir1 → dir10).
+				continue
+			}
 			delete(w.path, p)
 			delete(w.wd, rwd)
 			wds = append(wds, rwd)
